@@ -279,11 +279,38 @@ func parseAllObserved(b []byte) string {
 	return hx.Ok(instrsTerm(full))
 }
 
+// One long-lived ParseHandler serves every ToString call of the run.  Before each call it is
+// given bytecode that lists one instruction and then fails to decode (HALT, then a MOVE whose
+// symbol is cut short), so every listing reported in a case is produced by a handler whose
+// previous call failed midway.  The result of THIS handler is what the case records (and what
+// the correspondence and the C14/C15 monitors judge); a fresh per-call handler is run as well
+// and a difference between the two is counted.
+var sharedToString *vm.ParseHandler
+var sharedToStringDiffers int
+
+var toStringPoison = []byte{0x00, 0x07, 0x00, 0x06, 0x03, 0x66}
+
 func toStringObserved(b []byte) string {
 	var s string
 	var err error
 	panicked, _ := hx.Recover(func() { s, err = vm.NewParseHandler().WithDefaultHandlers().ToString(b) })
-	return resBytes([]byte(s), err, panicked)
+	fresh := resBytes([]byte(s), err, panicked)
+
+	if sharedToString == nil {
+		sharedToString = vm.NewParseHandler().WithDefaultHandlers()
+	}
+	hx.Recover(func() { sharedToString.ToString(toStringPoison) })
+	var s2 string
+	var err2 error
+	panicked2, _ := hx.Recover(func() { s2, err2 = sharedToString.ToString(b) })
+	if panicked2 {
+		sharedToString = nil
+	}
+	shared := resBytes([]byte(s2), err2, panicked2)
+	if shared != fresh {
+		sharedToStringDiffers++
+	}
+	return shared
 }
 
 var numBoundaries = []uint32{0, 1, 2, 42, 127, 128, 255, 256, 257, 65535, 65536, 65537, 1<<24 - 1, 1 << 24, 1<<24 + 1, 1<<31 - 1, 1 << 31, 1<<32 - 2, 1<<32 - 1}
@@ -583,6 +610,8 @@ func runCodec(o opts) error {
 				addParseAll(enc, "parseall-valid", false)
 			}
 		}
+		w.Count("tostring_calls_on_shared_handler_after_failed_call")
+		w.Stats["tostring_shared_handler_differs_from_fresh"] = sharedToStringDiffers
 		return w.Flush()
 	}
 
@@ -761,5 +790,10 @@ func runCodec(o opts) error {
 	for _, t := range tails {
 		addDisasm(t, "disasm-short")
 	}
+	// every listing above came from the shared handler after a call that failed midway
+	if w.Stats == nil {
+		w.Stats = map[string]int{}
+	}
+	w.Stats["tostring_shared_handler_differs_from_fresh"] = sharedToStringDiffers
 	return w.Flush()
 }
